@@ -532,7 +532,9 @@ def waste_provenance(index, rep):
     # key in consts_for_optimizer -> accepted provenance text fragments (attribute chain ending in the WASTE_RETAIL read)
     mod = index.module(PARAMS)
     assigns = {}
-    for n in ast.walk(mod):
+    from .core import unrolled_assigns
+    from .symx import Interp as _I
+    for n in unrolled_assigns(mod, _I.global_literals):
         if isinstance(n, ast.Assign) and len(n.targets) == 1 and isinstance(n.targets[0], ast.Subscript):
             t = n.targets[0]
             k = t.slice.value if isinstance(t.slice, ast.Constant) else None
